@@ -57,6 +57,18 @@ fn ip_suffix_case(host: &str, entries: &[String]) -> bool {
     })
 }
 
+/// A host written with a trailing dot against an entry written without one (or the other way round): whether
+/// the dot is significant is not decided by the statement (curl strips it, this library compares literally).
+/// Empty entries bypass nothing either way.
+fn dot_case(host: &str, entries: &[String]) -> bool {
+    let strip = |s: &str| s.trim_end_matches('.').to_ascii_lowercase();
+    let h = strip(host);
+    entries.iter().any(|e| {
+        let e2 = strip(e);
+        !e2.is_empty() && (host.ends_with('.') != e.ends_with('.')) && (h == e2 || h.ends_with(&format!(".{}", e2)))
+    })
+}
+
 fn bypass(host: &str, entries: &[String]) -> bool {
     let h = host.to_ascii_lowercase();
     entries.iter().any(|e| {
@@ -130,8 +142,13 @@ fn effective(lower: &EnvVal, upper: &EnvVal) -> Option<Option<&'static str>> {
 }
 
 pub fn scenario(g: &mut G, ctx: &RunCtx) -> RunReport {
-    let host = gen_host(g);
+    let mut host = gen_host(g);
     let other = gen_host(g);
+    // (no draw) a fully qualified name written with its trailing dot
+    if host.len() % 5 == 0 && !host.starts_with('[') && host.parse::<std::net::Ipv4Addr>().is_err() {
+        host.push('.');
+        g.probe("host-with-a-trailing-dot");
+    }
     let scheme = if g.chance(1, 3) { "https" } else { "http" };
     let url_s = format!("{}://{}/p", scheme, host);
     let url = Url::parse(&url_s).expect("generated url");
@@ -160,7 +177,7 @@ pub fn scenario(g: &mut G, ctx: &RunCtx) -> RunReport {
         let configured = if scheme == "http" { has_http.then_some(HTTP_PROXY) } else { has_https.then_some(HTTPS_PROXY) };
         let want = match configured {
             None => Want::Direct,
-            Some(_) if ip_suffix_case(&hs, &entries) => Want::DontCare,
+            Some(_) if ip_suffix_case(&hs, &entries) || dot_case(&hs, &entries) => Want::DontCare,
             // the statement defines leading-dot stripping for the environment only
             Some(_) if entries.iter().any(|e| e.starts_with('.')) => Want::DontCare,
             Some(p) => {
@@ -350,7 +367,7 @@ pub fn scenario(g: &mut G, ctx: &RunCtx) -> RunReport {
             }
             match configured {
                 None => Want::Direct,
-                Some(_) if ip_suffix_case(&hs, &entries) => Want::DontCare,
+                Some(_) if ip_suffix_case(&hs, &entries) || dot_case(&hs, &entries) => Want::DontCare,
                 Some(p) => {
                     if bypass(&hs, &entries) {
                         Want::Direct
